@@ -631,6 +631,18 @@ func (en *env) index(x *ast.IndexExpr) TV {
 	if rs, ok := base.T.(*RawSort); ok && rs.S.Kind == smt.KArray {
 		return TV{V: Scalar{c.Select(en.scalar(base), en.rawIndex(x.Index, rs.S.Idx))}, T: sortType(rs.S.Elem)}
 	}
+	// modelled Go maps: m[k] is the value under k (the zero value when absent); presence is has(m, k)
+	if base.T != nil {
+		if mt, ok := base.T.Underlying().(*types.Map); ok {
+			mm := r.mapModel(base.T)
+			if mm == nil {
+				en.errf("maps of type %s are not modelled", base.T)
+			}
+			k := en.coerceTo(en.eval(x.Index, mt.Key()), mt.Key())
+			v, _ := r.mapGet(en.state(), mm, en.scalar(base), en.scalar(k))
+			return TV{V: v, T: mt.Elem()}
+		}
+	}
 	idx := en.coerceTo(en.eval(x.Index, types.Typ[types.Int]), types.Typ[types.Int])
 	it := r.toIdx(en.scalar(idx), idx.T)
 	switch b := base.V.(type) {
@@ -705,6 +717,17 @@ func (en *env) call(x *ast.CallExpr, want types.Type) TV {
 				cs = append(cs, c.Op("<", nil, ref, cnt))
 			}
 			return TV{V: Scalar{c.And(cs...)}, T: types.Typ[types.Bool]}
+		case "has":
+			// has(m, k): key k is present in the (modelled) Go map m
+			a := en.eval(x.Args[0], nil)
+			mt, ok := a.T.Underlying().(*types.Map)
+			mm := r.mapModel(a.T)
+			if !ok || mm == nil || len(x.Args) != 2 {
+				en.errf("has(m, k) needs a modelled map")
+			}
+			k := en.coerceTo(en.eval(x.Args[1], mt.Key()), mt.Key())
+			_, has := r.mapGet(en.state(), mm, en.scalar(a), en.scalar(k))
+			return TV{V: Scalar{has}, T: types.Typ[types.Bool]}
 		case "ref":
 			// ref(x): the reference (object identity) of a pointer or of a slice's backing array, 0 for nil
 			a := en.eval(x.Args[0], nil)
@@ -1236,6 +1259,21 @@ func (en *env) havoc(m ast.Expr, at *node) {
 	r := en.r
 	c := r.C()
 	switch x := m.(type) {
+	case *ast.CallExpr:
+		// allof(x.f): the field f of every object (the whole heap of that field becomes unconstrained)
+		if id, ok := x.Fun.(*ast.Ident); ok && id.Name == "allof" && len(x.Args) == 1 {
+			p := en.addrOf(x.Args[0])
+			pv := p.V.(PtrV)
+			var cells []leafCell
+			if !r.leafCells(pv.L.T, "", &cells) {
+				en.errf("allof(%s): unsupported field type", types.ExprString(x.Args[0]))
+			}
+			for _, lc := range cells {
+				name := pv.L.Heap + lc.suffix
+				at.setPV(name, c.Fresh(name, r.heapSort(len(pv.L.Idxs), lc.sort)))
+			}
+			return
+		}
 	case *ast.Ident:
 		if g, ok := r.E.Ghosts[x.Name]; ok {
 			s := g.Sort
